@@ -1,4 +1,4 @@
-\* the mechanism as shipped: TLC must find the eviction schedule  NextRow(1) Eval(1) NextRow(2) Eval(2) Yield(1) Eval(1)
+\* the mechanism as shipped before fix 678e809: TLC must find the eviction schedule  NextRow(1) Eval(1) NextRow(2) Eval(2) Yield(1) Eval(1)
 CONSTANTS
   Threads = {1, 2}
   CacheMode = "process-wide one entry"
